@@ -76,6 +76,7 @@ impl Property for C13 {
             "retrofire_core::util::pnm::{write_ppm, read_pnm, parse_pnm, Header::parse, Header::write, parse_num}",
             "retrofire_core::util::buf::{Buf2::new_from, Inner::new, slice, slice_mut, Slice2::new, rows, data, AsSlice2 impls}",
             "std::io::{BufReader, BufWriter, LineWriter, Chain, Bytes, Write::write_all, Write::write_fmt}",
+            if crate::seams::FILE_SEAM { "retrofire_core::util::pnm::{load_pnm, save_ppm} (through the guarded File seam, and on the real file system fault-free)" } else { "retrofire_core::util::pnm::{load_pnm, save_ppm} (real file system, fault-free only)" },
         ]
     }
     fn stub_components() -> Vec<&'static str> {
@@ -88,7 +89,11 @@ impl Property for C13 {
         ]
     }
     fn not_run() -> Vec<&'static str> {
-        vec!["load_pnm / save_ppm are not run under simulation (they open std::fs::File themselves): the same BufReader/BufWriter compositions are simulated over the stubs, and the wrappers themselves are cross-checked against the stream functions on the real file system, fault-free, in ~2.5% of search runs (oracle W)"]
+        if crate::seams::FILE_SEAM {
+            vec!["nothing the property anchors: load_pnm / save_ppm run under simulation through the guarded File seam (wrapper stacks; File::open / File::create can fail) and, fault-free, on the real file system (oracle W); std::fs::File itself is replaced by the seam's stand-in in those runs"]
+        } else {
+            vec!["load_pnm / save_ppm are not run under simulation (the tree did not compile with the File seam): the same BufReader/BufWriter compositions are simulated over the stubs, and the wrappers themselves are cross-checked against the stream functions on the real file system, fault-free, in ~2.5% of search runs (oracle W)"]
+        }
     }
     fn rule() -> &'static str {
         "Seeded search: job i of the batch is scenario gen(mix(VERIF_SEED, 13, i)) = (workload: image written by the real write_ppm through a simulated sink | file spelled by the harness's foreign writer | odd-header bytes) x (writer stack, chunking, interruptions, write/flush error) x (0-3 storage faults) x (reader stack, chunking, interruptions, read error / early EOF). Sweeps: one fault at every position of sampled small base files (every truncation length, bit, block position for sizes 1/3/8, garbage pair, span loss/duplication, read-error and early-EOF byte). A run is non-trivial when at least one benign or destructive behaviour actually fired (ledger), i.e. the stubs did not behave like a plain Vec/&[u8]; distinct = distinct hashes of the event log (every seam call: seq, call#, requested, decision, bytes; every disk fault) plus stored length."
@@ -129,6 +134,7 @@ impl Property for C14 {
             "retrofire_geom::io::{read_obj, parse_obj, parse_face, parse_indices, parse_index, parse_point, parse_vector, parse_texcoord, parse_normal}",
             "retrofire_core::geom::mesh::{Mesh::new, Mesh::into_builder, Builder::build}",
             "std::io::{BufReader, Chain, Bytes}",
+            if crate::seams::FILE_SEAM { "retrofire_geom::io::load_obj (through the guarded File seam, and on the real file system fault-free)" } else { "retrofire_geom::io::load_obj (real file system, fault-free only)" },
         ]
     }
     fn stub_components() -> Vec<&'static str> {
@@ -140,7 +146,11 @@ impl Property for C14 {
         ]
     }
     fn not_run() -> Vec<&'static str> {
-        vec!["load_obj is not run under simulation (it opens std::fs::File itself): the same `&mut BufReader` composition is simulated over the stub, and load_obj itself is cross-checked against parse_obj on the real file system, fault-free, in ~2.5% of search runs (oracle W)"]
+        if crate::seams::FILE_SEAM {
+            vec!["nothing the property anchors: load_obj runs under simulation through the guarded File seam (wrapper stacks; File::open can fail) and, fault-free, on the real file system (oracle W); std::fs::File itself is replaced by the seam's stand-in in those runs"]
+        } else {
+            vec!["load_obj is not run under simulation (the tree did not compile with the File seam): the same `&mut BufReader` composition is simulated over the stub, and load_obj itself is cross-checked against parse_obj on the real file system, fault-free, in ~2.5% of search runs (oracle W)"]
+        }
     }
     fn rule() -> &'static str {
         "Seeded search: job i is scenario gen(mix(VERIF_SEED, 14, i)) = (OBJ text written by the harness from a random mesh: layouts, index forms, number spellings; ~12% near-miss exporter output) x (0-3 storage faults) x (reader stack, chunking, interruptions, read error / early EOF). Sweeps: one fault at every position of sampled small base files (every truncation length, bit, block position for sizes 1/3/8, garbage pair, whole-line loss/duplication, read-error and early-EOF byte). A run is non-trivial when at least one benign or destructive behaviour actually fired (ledger); distinct = distinct hashes of the event log (every seam call and disk fault) plus stored length."
